@@ -19,6 +19,8 @@ Digits == {"0","1","2","3","4","5","6","7","8","9"}
 Punct == {"/","(",")","-",":",",","="}
 DigitVal == [c \in Digits |-> CHOOSE d \in 0..9 : ToString(d) = c]
 
+RECURSIVE DigitRun(_, _)
+DigitRun(s, i) == IF Ch(s, i + 1) \in Digits THEN 1 + DigitRun(s, i + 1) ELSE 1     \* length of the digit run starting at i
 \* token length at position i; 0 = lexical error
 TokLen(s, i) ==
   LET c == Ch(s, i) IN
@@ -26,7 +28,7 @@ TokLen(s, i) ==
                        ELSE IF c \in SymSet THEN 1 ELSE 0)
   ELSE IF c \in Punct THEN 1
   ELSE IF c \in Digits THEN (IF c = "0" THEN 0
-                             ELSE Min({j \in i..Len(s) : Ch(s, j+1) \notin Digits}) - i + 1)
+                             ELSE DigitRun(s, i))
   ELSE IF i + 3 <= Len(s) /\ SubSeq(s, i, i+3) = "mass" THEN 4
   ELSE IF i + 2 <= Len(s) /\ SubSeq(s, i, i+2) = "rad" THEN 3
   ELSE 0
